@@ -392,6 +392,10 @@ func runC05(c *Ctx) {
 	// ---- R05.5
 	c.optionPlumbing("R05.5")
 
+	// ---- R05.7
+	c.rule("R05.7", "every completion delivered to an id-bearing call carries that call's id")
+	c.completionIDs("R05.7")
+
 	// ---- R05.6
 	{
 		n := 0
@@ -543,4 +547,90 @@ func isOptionCtor(fn *ssa.Function) bool {
 	}
 	_, isPtr := sig.Params().At(0).Type().(*types.Pointer)
 	return isPtr
+}
+
+// completionIDs: the caller compares the id of the completion with its request's id before it looks
+// at the error code. A locally synthesised failure that leaves the id out therefore surfaces as an
+// "id mismatch" client error: retry-tagged calls are not retried and untagged ones do not get the
+// typed connection error. An id-less completion is fine only where the request has no id.
+func (c *Ctx) completionIDs(rule string) {
+	p, r := c.P, c.R
+	w := c.ws()
+	idF := respFieldByTag(r.TCresp, "id")
+	frameID := respFieldByTag(r.TFrame, "id")
+	if !c.need(rule, "id member of the client response", idF != nil) {
+		return
+	}
+	arm, haveArm := w.Arms["requests"]
+	n := 0
+	for _, fn := range p.Funcs {
+		if pkgOf(fn) != p.Root.Pkg {
+			continue
+		}
+		allInstrsRaw(fn, func(in ssa.Instruction) {
+			if !c.isCompletion(in) {
+				return
+			}
+			var v ssa.Value
+			switch x := in.(type) {
+			case *ssa.Send:
+				v = x.X
+			case *ssa.Select:
+				for _, st := range x.States {
+					if st.Dir == types.SendOnly && st.Send != nil {
+						v = st.Send
+					}
+				}
+			}
+			if v == nil {
+				return
+			}
+			n++
+			construct := fmt.Sprintf("%s: id of the delivered completion", fname(fn))
+			os := c.originsOf(v, idF)
+			allID, anyOther := len(os) > 0, false
+			for _, o := range os {
+				switch {
+				case o.through(r.FReqID) || (frameID != nil && o.through(frameID)) || c.isInflightKey(o):
+				case zeroFieldOrigin(o) || (len(o.Fields) == 0 && isNilConst(o.Root)):
+					allID = false
+				default:
+					allID = false
+					anyOther = true
+				}
+			}
+			switch {
+			case allID:
+				c.ok(rule, construct, c.ipos(in), "the id of the request / frame being answered")
+			case anyOther:
+				c.bad(rule, construct, c.ipos(in), "the completion's id is neither the id of the request being answered nor absent")
+			default:
+				// id-less completion: only where the request being answered has no id
+				reach := ssa.Instruction(nil)
+				if haveArm && arm.Body != nil {
+					reach = reachFromBlockF(arm.Body, func(x ssa.Instruction) bool { return x == in }, func(x ssa.Instruction) bool { return x == ssa.Instruction(w.LoopSelect) }, c.assumeID(false))
+				}
+				inArm := haveArm && arm.Body != nil && reachFromBlock(arm.Body, func(x ssa.Instruction) bool { return x == in }, func(x ssa.Instruction) bool { return x == ssa.Instruction(w.LoopSelect) }) != nil
+				c.check(inArm && reach == nil, rule, construct, c.ipos(in), "id-less completion only for requests without id",
+					"a completion without id is delivered to a call that has one (e.g. when writing the request failed): the caller's id check turns the temporary-connection error into an id-mismatch client error, so retry-tagged calls are not retried and untagged ones do not see the typed connection error")
+			}
+		})
+	}
+	if n == 0 {
+		c.und(rule, "completions", "-", "no delivery of a client response found")
+	}
+}
+
+// isInflightKey: the key obtained by ranging over the in-flight table (entries are registered under their own id).
+func (c *Ctx) isInflightKey(o apath) bool {
+	ex, ok := o.Root.(*ssa.Extract)
+	if !ok || len(o.Fields) != 0 || ex.Index != 1 {
+		return false
+	}
+	nx, ok := ex.Tuple.(*ssa.Next)
+	if !ok {
+		return false
+	}
+	rg, ok := nx.Iter.(*ssa.Range)
+	return ok && c.fieldVal(rg.X, c.R.FInflight)
 }
